@@ -235,6 +235,8 @@ class Unit:
                 # the code no longer contains the site this rewrite was written for: go on without it and let the
                 # verifier decide (a non-verification error from Verus then yields UNDECIDED, never VIOLATION)
                 # [plain]: the rewrite only lowers a construct (no contract text in it); without it the code reaches Verus as written
+                if why.startswith('(if present)'):
+                    continue        # a rewrite for text that a CHANGE may introduce (e.g. `self.` in a lifted tail): nothing to do
                 notes.add('LOST-ANCHOR', '@subst `%s`%s' % (old, '' if re.search(r'\b(ensures|requires)\b', new) else ' [plain]'))
                 continue
             txt = txt.replace(old, new)
